@@ -121,6 +121,81 @@ pub fn run(ctx: &Ctx) {
             }
         }
     }
+    // ---- the slot rule in large sets: 60..=120 filler mutations with unique keys plus one repeated slot somewhere in the set
+    for fill in [0usize, 30, 63, 64, 65, 100, 300] {
+        for (name, c2, p2, k2) in [("same-slot-other-predicate", 1u8, 2u8, 7i64), ("same-slot-same-predicate", 1, 1, 7), ("other-contract", 2, 1, 7), ("other-key", 1, 2, 8)] {
+            for pos in [0usize, 1, 2] {
+                let key_a: Vec<Word> = vec![7, 0, 9];
+                let mut key_b = key_a.clone();
+                key_b[0] = k2;
+                let filler = |base: usize, n: usize| -> Vec<Mutation> { (0..n).map(|i| Mutation { key: vec![1000 + (base + i) as Word, 1, 2], value: vec![1] }).collect() };
+                let mut s1 = sol(1, 1, vec![], filler(0, fill / 2));
+                s1.state_mutations.insert((fill / 4).min(s1.state_mutations.len()), Mutation { key: key_a.clone(), value: vec![1] });
+                let mut s2 = sol(c2, p2, vec![], filler(5000, fill - fill / 2));
+                s2.state_mutations.push(Mutation { key: key_b.clone(), value: vec![2] });
+                let s3 = sol(3, 3, vec![], vec![Mutation { key: vec![5], value: vec![] }]);
+                let mut sols = vec![s1, s2];
+                sols.insert(pos, s3);
+                check_set_case(ctx, &format!("validate/big-slots/{fill}/{name}/{pos}"), &SolutionSet { solutions: sols }, || format!("{fill} filler mutations, case {name}, third solution at {pos}"));
+            }
+        }
+    }
+    // ---- signed contracts: a valid signature is accepted, every other recovery id or a corrupted signature is rejected
+    {
+        use essential_types::contract::{Contract, SignedContract};
+        let sk = secp256k1::SecretKey::from_byte_array(&[9u8; 32]).expect("key");
+        let contract = Contract { predicates: vec![Predicate { nodes: vec![Node { edge_start: u16::MAX, program_address: ca(1) }], edges: vec![] }], salt: [3; 32] };
+        let signed: SignedContract = essential_sign::contract::sign(contract.clone(), &sk);
+        let id = "validate/signed/valid";
+        if ctx.want(id) {
+            match std::panic::catch_unwind(|| predicate::check_signed_contract(&signed).is_ok()) {
+                Ok(true) => ctx.pass(),
+                other => ctx.fail(id, "a signed contract within the limits with a recoverable signature is accepted", format!("{:?}", other)),
+            }
+        }
+        let good_id = signed.signature.1;
+        for rid in 0..=255u8 {
+            let id = format!("validate/signed/recid/{rid}");
+            if !ctx.want(&id) {
+                continue;
+            }
+            let mut s = signed.clone();
+            s.signature.1 = rid;
+            // ids 0..=3 are well-formed: the contract is accepted exactly when verification against that id succeeds (it does for the signing id);
+            // ids above 3 are not recovery ids at all
+            let got = std::panic::catch_unwind(|| predicate::check_signed_contract(&s).is_ok());
+            let want_reject = rid > 3;
+            match got {
+                Err(_) => ctx.fail(&id, "validators never panic", format!("PANIC: recovery id {rid}")),
+                Ok(ok) if want_reject && ok => ctx.fail(&id, "a signed contract needs a recoverable signature: recovery ids above 3 are rejected", format!("recovery id {rid} accepted")),
+                Ok(ok) if rid == good_id && !ok => ctx.fail(&id, "a signed contract with a valid signature is accepted", format!("signing recovery id {rid} rejected")),
+                Ok(_) => ctx.pass(),
+            }
+        }
+        for byte in [0usize, 31, 32, 63] {
+            let id = format!("validate/signed/corrupt/{byte}");
+            if !ctx.want(&id) {
+                continue;
+            }
+            let mut s = signed.clone();
+            s.signature.0[byte] ^= 0x40;
+            match std::panic::catch_unwind(|| predicate::check_signed_contract(&s)) {
+                Err(_) => ctx.fail(&id, "validators never panic", format!("PANIC: corrupted signature byte {byte}")),
+                // a corrupted signature either fails to recover or recovers another key: verify() compares nothing else, so only panics are failures here
+                Ok(_) => ctx.pass(),
+            }
+        }
+        // an oversized contract with a valid signature is still rejected
+        let big = Contract { predicates: vec![Predicate { nodes: vec![], edges: vec![] }; 101], salt: [3; 32] };
+        let sb = essential_sign::contract::sign(big, &sk);
+        let id = "validate/signed/too-many-predicates";
+        if ctx.want(id) {
+            match std::panic::catch_unwind(|| predicate::check_signed_contract(&sb).is_ok()) {
+                Ok(false) => ctx.pass(),
+                other => ctx.fail(id, "a signed contract above the predicate limit is rejected", format!("{:?}", other)),
+            }
+        }
+    }
     // ---- predicate and contract size limits
     let pred = |n: usize, e: usize| Predicate { nodes: vec![Node { edge_start: u16::MAX, program_address: ca(0) }; n], edges: vec![0; e] };
     for n in [0usize, 999, 1000, 1001, 65535, 65536, 70000] {
